@@ -94,6 +94,8 @@ def main(argv):
     args = parse(argv)
     if os.environ.get("VSIM_STAGE") != "1":
         return stage0(args, argv)
+    if hasattr(sys, "set_int_max_str_digits"):
+        sys.set_int_max_str_digits(0)       # big integers are logged and compared as decimal strings
     from vsim import driver
     if args.cmd == "check":
         return driver.check(args)
